@@ -95,6 +95,9 @@ OPS = [
     ("part_ptm4", "wavespectra/partition/partition.py", "Partition.ptm4"),
     ("part_ptm5", "wavespectra/partition/partition.py", "Partition.ptm5"),
     ("part_bbox", "wavespectra/partition/partition.py", "Partition.bbox"),
+    ("from_wwm", "wavespectra/input/wwm.py", "from_wwm"),
+    ("from_era5", "wavespectra/input/era5.py", "from_era5"),
+    ("from_ndbc", "wavespectra/input/ndbc.py", "from_ndbc"),
 ]
 # python callee name -> lean name of its summary (plain calls `f(..)`; methods `<anything>.m(..)` of translated classes)
 CALLEE_FUNCS = {"set_spec_attributes": "set_spec_attributes", "unique_indices": "unique_indices", "scaled": "scaled",
